@@ -26,7 +26,7 @@ ASSUMPTIONS = [
     'providers (groups / roles / labels) are arbitrary functions; for the stability theorem they may change their answers between calls',
     'to_json: "includes an object" = the object appears in the `objects` section; a bare foreign-key value of an unviewable object is not counted',
 ]
-RULE = ('exhaustive: every single rule over {context entities} x {permissions} x {groups} x {roles} x {labels} x {excluded entities} x {excluded attributes} of a 2-entity '
+RULE = ('every implementation run is judged twice - by the Coq model (correspondence) and by the statement-level oracle (search): `evaluations` counts both judgements, `distinct_nontrivial` counts each distinct run once. ' 'exhaustive: every single rule over {context entities} x {permissions} x {groups} x {roles} x {labels} x {excluded entities} x {excluded attributes} of a 2-entity '
         'model (4608 rule sets; 2112 in the quick tier: no edit-only rules, at most two excluded attributes), every unordered pair over a reduced universe, seeded random triples; per rule set the full table user x permission x target '
         '(2 entities, 4 attributes, 4 objects) of has_perm, can_view and to_json. non-trivial = the table contains both granted and refused cells; '
         'distinct = distinct rule sets')
@@ -114,6 +114,7 @@ def run_rulesets(ctx, rsets, procs=4, mode='table', extra=None):
 
 
 _cache = {}
+_counted = set()      # result sets whose non-trivial cases were already counted by correspondence()
 
 def get_results(ctx, deep=False):
     key = (ctx.seed, ctx.tier, deep)
@@ -175,6 +176,7 @@ def run_bools(ctx, exprs, chunk=1000):
 
 def correspondence(ctx):
     rs, res = get_results(ctx, False)
+    _counted.add((ctx.seed, ctx.tier, False))
     exprs, meta, disagreements = [], [], []
     nontriv = set()
     dist = {'single': 0, 'pair': 0, 'multi': 0}
@@ -306,6 +308,7 @@ def search(ctx, deep):
     rs, res = get_results(ctx, deep)
     fails, seen = failures_of(rs, res)
     nt = set(json.dumps(r, sort_keys=True) for r, x in zip(rs, res) if any(x['table']) and not all(x['table']))
+    if (ctx.seed, ctx.tier, deep) in _counted: nt = set()      # same executions as the correspondence run: count distinct cases once
     return Search(evaluations=len(rs), failures=fails, nontrivial=len(nt), exhaustive=True,
                   distribution={'rule_sets': len(rs), 'cells_per_rule_set': len(res[0]['table']), 'wrong_cells_by_key': seen},
                   samples=[{'rules': rs[len(rs) // 2], 'order': res[len(rs) // 2]['order']}])
